@@ -156,7 +156,7 @@ def readTyped (s : String) : Option (Typed.TVal F64v) :=
   | some (v, []) => some v
   | _ => none
 
-/-- `unicode.ToUpper` on the first rune, for ASCII and the Latin-1 supplement
+/-- `unicode.ToUpper` on the first rune, for ASCII, the Latin-1 supplement and the four Latin digraphs
     (what the typed stream's field names need; the library function itself is
     not modelled). -/
 def capFirst : Bytes → Bytes
@@ -164,6 +164,13 @@ def capFirst : Bytes → Bytes
     if 0x61 ≤ c ∧ c ≤ 0x7A then (c - 0x20) :: rest
     else match c, rest with
       | 0xC3, d :: rest' => if 0xA0 ≤ d ∧ d ≤ 0xBE ∧ d ≠ 0xB7 then 0xC3 :: (d - 0x20) :: rest' else c :: rest
+      -- the Latin digraphs ǆ ǉ ǌ ǳ and their title-case forms ǅ ǈ ǋ ǲ: upper case Ǆ Ǉ Ǌ Ǳ (≠ title case)
+      | 0xC7, d :: rest' =>
+        if d = 0x86 ∨ d = 0x85 then 0xC7 :: 0x84 :: rest'
+        else if d = 0x89 ∨ d = 0x88 then 0xC7 :: 0x87 :: rest'
+        else if d = 0x8C ∨ d = 0x8B then 0xC7 :: 0x8A :: rest'
+        else if d = 0xB3 ∨ d = 0xB2 then 0xC7 :: 0xB1 :: rest'
+        else c :: rest
       | _, _ => c :: rest
   | [] => []
 
